@@ -52,6 +52,9 @@ func (d *intDecoder) parseInt(b []byte) (int64, error) {
 		isNegative = true
 	}
 	maxDigit := len(b)
+	if maxDigit == 0 || (maxDigit > 1 && b[0] == '0') {
+		return 0, fmt.Errorf("invalid number literal")
+	}
 	if maxDigit > pow10i64Len {
 		return 0, fmt.Errorf("invalid length of number")
 	}
@@ -61,8 +64,16 @@ func (d *intDecoder) parseInt(b []byte) (int64, error) {
 		digitValue := pow10i64[maxDigit-i-1]
 		sum += c * digitValue
 	}
+	// at most 19 digits: the magnitude is exact as uint64, so overflow of
+	// int64 is visible in the unsigned value
 	if isNegative {
+		if uint64(sum) > 1<<63 {
+			return 0, fmt.Errorf("number out of range")
+		}
 		return -1 * sum, nil
+	}
+	if uint64(sum) > 1<<63-1 {
+		return 0, fmt.Errorf("number out of range")
 	}
 	return sum, nil
 }
